@@ -343,6 +343,8 @@ class Emitter:
         if k == "range":
             raise TErr(f"{self.u.name}::{env.fn.name}: range expression outside an index")
         if k == "str":
+            if getattr(self.u, "str_bytes", False):     # units that use string literals as values: their bytes
+                return Code("[" + ", ".join(str(b) for b in bytes(e[1])) + "]", "str")
             return Code("()", "str")
         if k == "try" and getattr(self.u, "try_handler", None):
             # `e?`: what propagating the error means depends on the unit's encoding of `Result`
@@ -630,8 +632,9 @@ class Emitter:
                     raise TErr(f"{self.u.name}: constructor pattern `{ctor}` has no translation")
                 lc = m
             ps, conds, binds = [], [], {}
-            for q in p[2]:
-                a, c, b = self.cpat(q, env, inner_ty)
+            arg_tys = getattr(self.u, "ctor_arg_types", {}).get(ctor)   # Rust types of the fields of a unit's own constructors
+            for qi, q in enumerate(p[2]):
+                a, c, b = self.cpat(q, env, arg_tys[qi] if arg_tys and qi < len(arg_tys) else inner_ty)
                 ps.append(a if re.fullmatch(r"[\w'.]+", a) else f"({a})")
                 conds += c
                 binds.update(b)
@@ -649,6 +652,11 @@ class Emitter:
             if len(alts) != 1:
                 raise TErr(f"{self.u.name}: or-pattern whose alternatives have different shapes is only translated in matches! and match arms")
             return alts[0]
+        if getattr(self.u, "pat_handler", None):
+            # pattern kinds only some units use (slice patterns `[a, b]` of fixed-size arrays)
+            r = self.u.pat_handler(self, p, env, ty)
+            if r is not None:
+                return r
         raise TErr(f"{self.u.name}: pattern `{k}` is outside the translated subset")
 
     def cpat_alts(self, p, env, ty):
@@ -765,6 +773,11 @@ class Emitter:
         # or-patterns whose alternatives differ in shape become separate arms with the same body
         arms = []
         for (pat, guard, body) in e[2]:
+            if pat[0] == "por" and getattr(self.u, "split_or_bindings", False):
+                # `A(x) | B(x) => body`: one arm per alternative, each with the same body
+                for q in pat[1]:
+                    arms.append((q, guard, body))
+                continue
             if pat[0] == "por":
                 probe = self.cpat_alts(pat, env.child(), c.ty)
                 if len(probe) > 1:
@@ -1347,6 +1360,8 @@ class Emitter:
         for p in fn.params:
             if p[0] == "self":
                 svt = getattr(self.u, "self_value_type", None)
+                if callable(svt):    # units over several impl blocks: the type of `self` depends on the function
+                    svt = svt(fn)
                 if svt:          # units of pure methods: `self` is an ordinary value
                     ln = self.declare(env, "self", svt, False)
                     binders.append(f"({ln} : {self.lean_type(svt)})")
